@@ -17,15 +17,14 @@ from rdflib.paths import (AlternativePath, InvPath, MulPath, NegatedPath,  # noq
 
 TRUSTED = [
     "Coq 8.16.1 kernel and vm_compute",
-    "harness/c11.py: construction of the rdflib path object / SPARQL text from the case's path AST, numbering of terms (harness/terms.py)",
-    "coq/Paths/Model.v: path_rel/ends_ok are the intended reading of SPARQL 1.1 sections 18.4-18.5 (relation of a path, zero-length matches, negated property sets)",
-    "rdflib Memory store and Graph.triples for IRI predicates (the model takes the graph as a set of triples)",
+    "harness/c11.py: construction of the rdflib path object / SPARQL text from the case's path AST or syntax tree, read-back of the translated object (ast_of), numbering of terms (harness/terms.py), choice of the triple list a graph-restricted pattern is judged against (effective)",
+    "coq/Paths/Model.v, TransModel.v: path_rel / tree_rel / ends_ok are the intended reading of SPARQL 1.1 sections 18.2.2.3, 18.4, 18.5 (relation of a path, zero-length matches, negated property sets)",
+    "rdflib Memory store and Graph.triples for IRI predicates: a triple pattern is answered with each matching triple exactly once, in some order (hypothesis enum_perm_ok of C11_order_independent)",
 ]
 ASSUMPTIONS = [
     "terms compare by (class, lexical form, datatype, language): the pool contains no two distinct terms that rdflib considers equal",
-    "the multiset of yields does not depend on the iteration order of the store indices (observations are compared as multisets; checked on every case, not proved)",
     "members of a negated property set are IRIs or inverted IRIs (the SPARQL grammar); InvPath(<path>) inside NegatedPath is outside the model",
-    "SPARQL route: parser and translatePath are covered by conformance only (the model applies the evaluator to the case's AST, with the two translation quirks of finding F4e modelled)",
+    "SPARQL route: the text->tree step of parser.py is covered by conformance only (suite translate compares the translated object with the model of translatePath on the tree the text was rendered from); 'a' and DISTINCT(path) are not generated",
 ]
 RULE = ("path AST of depth <= 4 (iri, ^, /, |, * + ?, negated sets) x graph of <= 8 triples over <= 5 nodes with self-loops, 2-cycles, "
         "literal and falsy end points x each end unbound / bound to a node / bound to a term outside the graph x route "
@@ -36,7 +35,11 @@ RULE = ("path AST of depth <= 4 (iri, ^, /, |, * + ?, negated sets) x graph of <
         "evaluations, a mutation and a non-empty answer.  Suite path_in_graph: ConjunctiveGraph / Dataset (default_union on and off) with "
         "different triples scattered over 2-3 named graphs and the default graph, a path pattern restricted to one graph by context= (Graph "
         "object or name), quad pattern, `in`, the context graph itself or SPARQL GRAPH; judged against the relation over that graph's triples; "
-        "non-trivial = the requested graph holds fewer triples than the dataset")
+        "non-trivial = the requested graph holds fewer triples than the dataset.  Suite translate: syntax trees layered as grammar rules [88]-[96] "
+        "(alternatives of sequences of optionally inverted elements with optional modifier over iri / negated set / parenthesised path, depth <= 3, "
+        "single-part alternatives and sequences, redundant parentheses, bare and parenthesised negated sets), rendered to text, parsed and translated by "
+        "rdflib; the translated object's structure is compared with the model of translatePath and its relation with the tree's relation over a "
+        "small graph; non-trivial = the object is not a plain IRI.  Suite paths also inserts the triples in list / reversed / shuffled order")
 
 NODE_VOCAB = [1, 2, 12, 8, 13, 5, 6, 7, 10, 14]   # a b c _:b1 _:b2 "" 0 false "x" 0.0
 LITS = {5, 6, 7, 9, 10, 11, 14}
@@ -77,7 +80,8 @@ def ast_of(p):
     if isinstance(p, MulPath):
         return ["mul", ast_of(p.path), p.mod]
     if isinstance(p, NegatedPath):
-        return ["neg", [["iri", term_id(a)] if isinstance(a, URIRef) else ["inv", term_id(a.arg)] for a in p.args]]
+        return ["neg", [["iri", term_id(a)] if isinstance(a, URIRef) else
+                        ["inv", term_id(a.arg)] if isinstance(a, InvPath) else ["bad"] for a in p.args]]
     raise ValueError(p)
 
 
@@ -165,7 +169,8 @@ def c_path(ast):
     if k == "mul":
         return f"(Mul {c_path(ast[1])} " + {"*": "ZeroOrMore", "+": "OneOrMore", "?": "ZeroOrOne"}[ast[2]] + ")"
     if k == "neg":
-        return "(Neg " + clist(("NIri " if m[0] == "iri" else "NInv ") + cN(m[1]) for m in ast[1]) + ")"
+        return "(Neg " + clist("NBad" if m[0] == "bad" else ("NIri " if m[0] == "iri" else "NInv ") + cN(m[1])
+                               for m in ast[1]) + ")"
     raise ValueError(ast)
 
 
@@ -225,7 +230,10 @@ class C11(Suite):
 
         d = rng.choice([1, 2, 2, 3, 3, 3, 4, 4])
         path = gen_path(rng, d, preds, singles=not via.startswith("sparql"))
-        return {"g": g, "path": path, "s": end(), "o": end(), "via": via}
+        # "order": the triples are inserted into the store in another order than the model's list order, so the store
+        # enumerates the matches differently (theorem C11_order_independent says the multiset must not care)
+        return {"g": g, "path": path, "s": end(), "o": end(), "via": via,
+                "order": rng.choice(["list", "list", "reversed", "shuffled"])}
 
     # ------------------------------------------------------------ implementation
     def run_impl(self, case):
@@ -244,6 +252,11 @@ class C11(Suite):
         s = None if case["s"] is None else term(case["s"])
         o = None if case["o"] is None else term(case["o"])
         triples = [tuple(term(x) for x in t) for t in case["g"]]
+        if case.get("order") == "reversed":
+            triples.reverse()
+        elif case.get("order") == "shuffled":
+            import random
+            random.Random(len(triples) * 7919 + sum(t[2] for t in case["g"])).shuffle(triples)
         if via == "cg":
             g = ConjunctiveGraph()  # default_union is True
             for i, t in enumerate(triples):
@@ -306,7 +319,7 @@ class C11(Suite):
         return depth(case["path"]) >= 2 or (obs[0] == "ok" and len(obs[1]) > 0)
 
     def features(self, case, obs):
-        f = {"via_" + case["via"]: 1,
+        f = {"via_" + case["via"]: 1, "insertion_order_" + case.get("order", "list"): 1,
              "ends_" + ("S" if case["s"] is not None else "-") + ("O" if case["o"] is not None else "-"): 1,
              "top_" + case["path"][0]: 1, "depth_%d" % depth(case["path"]): 1}
         nodes = {t[0] for t in case["g"]} | {t[2] for t in case["g"]}
@@ -860,4 +873,241 @@ class C11G(Suite):
                             yield {"kind": kind, "layout": lay, "target": target, "route": route, "path": p, "s": s, "o": o}
 
 
-SUITES = [C11(), C11H(), C11G()]
+
+# ---------------------------------------------------------------------------
+# The SPARQL front end: parser.py's tree for the Path grammar and algebra.translatePath.
+# case = {"g": [[s,p,o]..], "tree": tree}
+# tree = ["iri", p] | ["neg", [["iri"|"inv", p]..], bare] | ["alt", [seq..]] | ["seq", [elt..]]
+#        | ["elt", primary, mod|None] | ["invelt", elt]          (layered as the grammar rules [88]-[96])
+def render_tree(t):
+    k = t[0]
+    if k == "iri":
+        return term(t[1]).n3()
+    if k == "neg":
+        ms = [("^" if m[0] == "inv" else "") + term(m[1]).n3() for m in t[1]]
+        if len(ms) == 1 and len(t) > 2 and t[2]:
+            return "!" + ms[0]                      # [95] first alternative: a single member without parentheses
+        return "!(" + "|".join(ms) + ")"
+    if k == "alt":
+        return "|".join(render_tree(x) for x in t[1])
+    if k == "seq":
+        return "/".join(render_tree(x) for x in t[1])
+    if k == "elt":
+        prim = t[1]
+        txt = "(" + render_tree(prim) + ")" if prim[0] == "alt" else render_tree(prim)
+        return txt + (t[2] or "")
+    if k == "invelt":
+        return "^" + render_tree(t[1])
+    raise ValueError(t)
+
+
+def c_tree(t):
+    k = t[0]
+    if k == "iri":
+        return f"(TIri {cN(t[1])})"
+    if k == "neg":
+        return "(TNeg " + clist(("NIri " if m[0] == "iri" else "NInv ") + cN(m[1]) for m in t[1]) + ")"
+    if k == "alt":
+        return "(TAlt " + clist(c_tree(x) for x in t[1]) + ")"
+    if k == "seq":
+        return "(TSeq " + clist(c_tree(x) for x in t[1]) + ")"
+    if k == "elt":
+        m = {"*": "(Some ZeroOrMore)", "+": "(Some OneOrMore)", "?": "(Some ZeroOrOne)", None: "None"}[t[2]]
+        return f"(TElt {c_tree(t[1])} {m})"
+    if k == "invelt":
+        return f"(TInvElt {c_tree(t[1])})"
+    raise ValueError(t)
+
+
+def find_predicate(node):
+    """the predicate of the single triple pattern in a translated query algebra"""
+    from rdflib.plugins.sparql.parserutils import CompValue
+    if isinstance(node, CompValue):
+        if "triples" in node and node["triples"]:
+            return node["triples"][0][1]
+        for v in node.values():
+            r = find_predicate(v)
+            if r is not None:
+                return r
+    elif isinstance(node, (list, tuple)):
+        for v in node:
+            r = find_predicate(v)
+            if r is not None:
+                return r
+    return None
+
+
+class C11T(Suite):
+    name = "translate"
+    imports = "From RV Require Import Paths.TransModel."
+    case_ty = "tcase"
+    obs_ty = "tobs"
+    model = "tmodel_obs"
+    oeq = "tobs_eqb"
+    spec = "tspec_ok"
+    kf = "tkf"
+    kf_ids = {4: "F4e"}
+    corr = "parser.py Path grammar [88]-[96], algebra.translatePath (via traverse visitPost), SequencePath/AlternativePath/NegatedPath constructors"
+    quick_n = 600
+    thorough_n = 12000
+    timeout_s = 10.0
+
+    def gen(self, rng, i):
+        preds = [3, 4] if rng.random() < 0.8 else [3, 4, 1]
+
+        def primary(d):
+            r = rng.random()
+            if d <= 0 or r < 0.45:
+                if rng.random() < 0.8:
+                    return ["iri", rng.choice(preds)]
+                n = rng.choice([0, 1, 1, 1, 2, 2, 3]) if rng.random() < 0.3 else rng.choice([1, 1, 2, 3])
+                ms = [["inv" if rng.random() < 0.06 else "iri", rng.choice(preds)] for _ in range(n)]
+                return ["neg", ms, rng.random() < 0.5]
+            return alt(d - 1)
+
+        def elt(d):
+            return ["elt", primary(d), rng.choice([None, None, None, "*", "+", "?"])]
+
+        def eltorinv(d):
+            return ["invelt", elt(d)] if rng.random() < 0.2 else elt(d)
+
+        def seq(d):
+            return ["seq", [eltorinv(d) for _ in range(rng.choice([1, 1, 2, 2, 3]))]]
+
+        def alt(d):
+            return ["alt", [seq(d) for _ in range(rng.choice([1, 1, 1, 2, 2, 3]))]]
+
+        vocab = rng.sample([1, 2, 12, 6, 5], rng.choice([2, 3]))
+        g = []
+        for _ in range(rng.choice([1, 2, 3, 4])):
+            t = [rng.choice([v for v in vocab if v not in LITS] or [1]), rng.choice(preds), rng.choice(vocab)]
+            if t not in g:
+                g.append(t)
+        return {"g": g, "tree": alt(rng.choice([0, 1, 1, 2, 2, 3]))}
+
+    def run_impl(self, case):
+        from rdflib.plugins.sparql import prepareQuery
+        try:
+            q = prepareQuery("SELECT * WHERE { ?s %s ?o }" % render_tree(case["tree"]))
+        except Exception as e:  # noqa: BLE001
+            return ["raised", type(e).__name__ + ": " + str(e)[:80]]
+        p = find_predicate(q.algebra)
+        if p is None:
+            return ["raised", "harness: no triple pattern in the algebra"]
+        ast = ast_of(p)
+        return ["ok", ast]
+
+    def coq_case(self, case):
+        g = clist(ctuple(cN(t[0]), cN(t[1]), cN(t[2])) for t in case["g"])
+        return "{| t_g := " + g + "; t_tree := " + c_tree(case["tree"]) + " |}"
+
+    def coq_obs(self, obs):
+        return "(Ok " + c_path(obs[1]) + ")" if obs[0] == "ok" else "Raised"
+
+    def nontrivial(self, case, obs):
+        return obs[0] == "ok" and obs[1][0] != "iri"
+
+    def features(self, case, obs):
+        txt = render_tree(case["tree"])
+        f = {"chars": len(txt), "has_group": int("(" in txt.replace("!(", "")), "has_neg": int("!" in txt),
+             "has_inverse": int("^" in txt)}
+        if obs[0] == "ok":
+            f["top_" + obs[1][0]] = 1
+        else:
+            f["raised"] = 1
+        return f
+
+    def shrink(self, case):
+        g = case["g"]
+        for i in range(len(g)):
+            yield dict(case, g=g[:i] + g[i + 1:])
+
+        def subs(t):
+            """smaller trees of the same grammar layer"""
+            k = t[0]
+            if k in ("alt", "seq"):
+                if len(t[1]) > 1:
+                    for i in range(len(t[1])):
+                        yield [k, t[1][:i] + t[1][i + 1:]]
+                for i, x in enumerate(t[1]):
+                    for y in subs(x):
+                        yield [k, t[1][:i] + [y] + t[1][i + 1:]]
+            elif k == "elt":
+                if t[2] is not None:
+                    yield ["elt", t[1], None]
+                if t[1][0] == "alt":
+                    yield ["elt", ["iri", 3], t[2]]
+                    for y in subs(t[1]):
+                        yield ["elt", y, t[2]]
+                elif t[1][0] == "neg" and len(t[1][1]) > 1:
+                    for i in range(len(t[1][1])):
+                        yield ["elt", ["neg", t[1][1][:i] + t[1][1][i + 1:], False], t[2]]
+            elif k == "invelt":
+                yield t[1]
+                for y in subs(t[1]):
+                    yield ["invelt", y]
+
+        for y in subs(case["tree"]):
+            yield dict(case, tree=y)
+
+    def sweep(self):
+        P, Q = ["iri", 3], ["iri", 4]
+        prims = [P, Q, ["neg", [["iri", 3]], True], ["neg", [["iri", 3], ["iri", 4]], False]]
+        elts = [["elt", p, m] for p in prims[:3] for m in (None, "*", "+", "?")] + [["invelt", ["elt", P, None]],
+                                                                                    ["invelt", ["elt", Q, "+"]]]
+        seqs = [["seq", [e]] for e in elts] + [["seq", [a, b]] for a in elts[::3] for b in elts[::4]]
+        g = [[1, 3, 2], [2, 4, 12], [2, 3, 1]]
+        for s1 in seqs:
+            yield {"g": g, "tree": ["alt", [s1]]}
+            for m in (None, "*", "?"):
+                yield {"g": g, "tree": ["alt", [["seq", [["elt", ["alt", [s1]], m]]]]]}
+                yield {"g": g, "tree": ["alt", [["seq", [["elt", ["alt", [s1, seqs[1]]], m], ["elt", P, None]]]]]}
+        for s1 in seqs[:20]:
+            for s2 in seqs[5:25:2]:
+                yield {"g": g, "tree": ["alt", [s1, s2]]}
+                yield {"g": g, "tree": ["alt", [["seq", [["elt", ["alt", [s1]], None], ["elt", ["alt", [s2]], None]]]]]}
+
+
+
+# ---------------------------------------------------------------------------
+# evaluate.evalBGP with the same variable at both ends:  SELECT ?x WHERE { ?x path ?x }
+class C11S(C11):
+    name = "same_var"
+    model = "model_obs_same"
+    spec = "spec_ok_same"
+    corr = "evaluate.evalBGP (binding of the pattern's variables, AlreadyBound) on ?x path ?x; parser; translatePath; paths.py"
+    quick_n = 300
+    thorough_n = 5000
+
+    def gen(self, rng, i):
+        c = C11.gen(self, rng, i)
+        c.update(s=None, o=None, via="sparql_same")
+        if c["path"][0] in ("seq", "alt") and len(c["path"][1]) == 1:      # single-part lists cannot be written as text
+            c["path"] = c["path"][1][0]
+        return c
+
+    def _pairs(self, case):
+        g = Graph()
+        for t in case["g"]:
+            g.add(tuple(term(x) for x in t))
+        res = g.query("SELECT ?x WHERE { ?x %s ?x }" % sparql_path(normal(case["path"])))
+        return [[term_id(b[Variable("x")]), term_id(b[Variable("x")])] for b in res.bindings]
+
+    def nontrivial(self, case, obs):
+        return obs[0] == "ok" and len(obs[1]) > 0
+
+    def sweep(self):
+        return []
+
+
+def normal(ast):
+    """drop single-part sequences / alternatives (they have no text form); the Coq case gets the same tree"""
+    if ast[0] in ("inv", "mul"):
+        return [ast[0], normal(ast[1])] + ast[2:]
+    if ast[0] in ("seq", "alt"):
+        items = [normal(x) for x in ast[1]]
+        return items[0] if len(items) == 1 else [ast[0], items]
+    return ast
+
+
+SUITES = [C11(), C11H(), C11G(), C11T(), C11S()]
